@@ -102,6 +102,25 @@ PAYLOAD_PATTERNS = {
     "by-depth": lambda i, depth: "pq"[depth % 2],
 }
 OUTPUT_PATTERNS = ("default", "multi", "terminal-none")
+
+
+def with_swapped_twins(spec: "GraphSpec") -> "GraphSpec | None":
+    """for every node with >= 2 inputs add a twin: same payload and outputs, same parents, input bindings rotated --
+    a different computation that must survive de-duplication and every other transformation"""
+    nodes = [dict(n) for n in spec.nodes]
+    edges = list(spec.edges)
+    added = False
+    for i in range(len(spec.nodes)):
+        ins = [e for e in spec.edges if e[2] == i]
+        if len(ins) < 2:
+            continue
+        twin = len(nodes)
+        nodes.append({"name": f"{spec.nodes[i]['name']}_twin", "payload": spec.nodes[i]["payload"], "outputs": spec.nodes[i]["outputs"]})
+        names = [e[3] for e in ins]
+        for k, (s_, so, _, _) in enumerate(ins):
+            edges.append((s_, so, twin, names[(k + 1) % len(names)]))
+        added = True
+    return GraphSpec(nodes, edges, spec.tag + ":twins") if added else None
 NAMESETS = {
     "unique": lambda i: f"n{i}",
     "colliding": lambda i: ["main", "m", "ma", "a", "main.a", "x.y", "in", "n"][i % 8],
